@@ -39,6 +39,25 @@ CLAIMED["C13"] = ("exploration", "3 (C13), 2.12",
    "One operation is sent k=8 (thorough 32) times to one gateway, each repetition under a freshly drawn scheduling policy and plan-step permutation (hook H2); a third of the runs poison sub-requests by content so that errors is non-empty. All repetitions must agree on data, on the multiset of errors (message, path, extensions) and on the multiset of sub-requests per service.",
    FED_NOTE + " Go's map iteration inside pebbles cannot be seeded: an order dependence that changes an outcome is caught with probability 1-2^-(k-1) per run.", "deterministic simulation: k-fold repetition under seeded schedule perturbation, agreement oracle")
 
+CLAIMED["C06"] = ("fault_enumeration", "3 (C06)",
+   "Generated mutations (1-3 root fields over 1-2 owning services, follow-up lookups elsewhere, worlds with the same root field under Query and Mutation) are executed alone, repeated (plan cache), inside a batch, and once per downstream call site x fault kind (connection error before / after the service, 500, non-JSON, errors answer). History check over what every simulated service received: per owner exactly one mutation request carrying its root fields in client order (at most one always, none at other services), follow-up lookups are queries.",
+   FED_NOTE + " Exactly-once is counted on the simulated wire.", "deterministic simulation with single-fault enumeration per call site, wire-history oracle")
+CLAIMED["C07"] = ("exploration", "3 (C07)",
+   "SCOPE as stated in DESIGN.md: not a fuzzer over byte strings. About 85 structured malformed / edge request kinds (JSON shapes incl. null and arrays of non-objects, wrong member types, multipart layouts and file maps with missing / out-of-range / malformed paths, unknown content types, GraphQL-level invalid operations, abstract type without members, root __typename) and request body streams cut or failing at chosen bytes go through the real handler; oracle: handler returns, response is JSON with data and/or errors, status 422 iff an independent strict decoder rejects the request else 200, invalid operations get errors and data null; every request is followed by a liveness probe that must equal the reference; panics in spawned goroutines kill the child and are seen by the parent.",
+   "The universal quantifier over byte strings is not decided (fuzzing is another technique family). net/http's per-connection recover is emulated. Trusted: the strict decoder, the reference executor.", "deterministic simulation: structured malformed workloads + failing request streams + liveness probes, crash capture by the parent process")
+CLAIMED["C08"] = ("exploration", "3 (C08)",
+   "A batch of 0-6 (thorough 8) operations (queries, mutations, introspection, syntactically and semantically invalid ones, duplicates) is sent to the real gateway under a seeded interleaving of the per-operation workers and answer deliveries, with content-keyed service failures in a third of the runs; a twin gateway answers each element alone. Oracle: array of N results, element i equals its alone answer (data, multiset of errors); valid fault-free elements also equal the reference. Thorough tier runs under the race detector.",
+   FED_NOTE, "deterministic simulation: seeded interleaving of batch workers, alone-vs-batch twin oracle")
+CLAIMED["C09"] = ("fault_enumeration", "3 (C09), 2.8",
+   "Per generated (world, operation): the fault-free run enumerates the downstream call sites; then every fault kind (connection error before/after the service, 500 with body, 404 empty, body read error, non-JSON, non-array, array too short/long, errors with/without partial data, element without data, node key missing / string / number / array, object-for-list, list-for-object, scalar-for-object, non-object list entry, null for a value, entity without id, non-string id, extra keys) x call site (<=5) x batch position is executed as its own request, alone or next to a clean sibling, followed by a clean request. Oracle: no process death, no hang, status 200 well-formed, errors non-empty for failure signals, every scalar in data occurs in some service answer for that operation, sibling and later requests equal the reference.",
+   FED_NOTE + " Single faults are exhaustive per operation up to 5 sites / 700 cases; sequences only via sibling / follow-up requests. A service that never answers is not modelled.", "deterministic simulation with fault enumeration (fault kind x plan step x batch position)")
+CLAIMED["C10"] = ("exploration", "3 (C10)",
+   "Invalid mutants of generated valid operations (about 20 single-edit kinds, kept only when gqlparser rejects them or the operation cannot be selected) must be answered by the gateway alone: data null, errors non-empty, no message on the simulated wire and no entry in any service effect log. Service error payloads injected at every call site (1 or 3 errors, one or two batch elements, nested extensions, mixed path, locations, with and without partial data) must each appear in the client's errors with equal message, extensions and path.",
+   FED_NOTE, "deterministic simulation: wire-silence oracle for rejected inputs, error pass-through oracle under injected service errors")
+CLAIMED["C14"] = ("exploration", "3 (C14)",
+   "Twin gateways over one world - caching planner (TTL 0, 1ns, 1s, 1h) and plain planner - run the same drawn request history: a pool built to collide on the cache key (same selection under the other operation type, renamed operation, other variable values, unrelated operations), as singles, batches (concurrent planning) and overlapping clients, with gaps around the TTL on the simulated clock. Oracle: request by request the cached gateway's answer equals the plain twin's. Thorough tier: race detector.",
+   FED_NOTE + " Subscriptions sharing a cached plan are covered by C17's configuration, not here.", "deterministic simulation: cached-vs-plain twin over request histories with simulated clock jumps")
+
 PENDING = {}  # id -> reason while a check is not built yet
 
 def main():
